@@ -604,6 +604,35 @@ func TestC02_IDLE(t *testing.T) {
 				}
 				slow <- nil
 			}()
+			// meanwhile, too: tokens minted at every moment of a wall-clock minute expire no later than five minutes after
+			// they were issued (31 s of minting, twice a second, cover a second half of a minute whenever the case starts)
+			mintWatch := make(chan *Violation, 1)
+			go func() {
+				mat := w.IdP.NewAccessToken("ok:" + w.User)
+				for t0 := time.Now(); time.Since(t0) < 31*time.Second; time.Sleep(500 * time.Millisecond) {
+					id := identity.NewUser()
+					id.SetAttribute(identity.AttrClientIp, "127.0.0.1")
+					id.SetAttribute(identity.AttrAccessToken, mat)
+					mctx := context.WithValue(context.Background(), identity.CTXKey, identity.Identity(id))
+					before := time.Now()
+					mt, err := security.GeneratePAAToken(mctx, w.User, w.addr("A"))
+					if err != nil {
+						mintWatch <- viol("c02/mint-error", "%v", err)
+						return
+					}
+					info, err := jwx.InspectJWS(mt, w.Key)
+					exp, _ := info.Claims["exp"].(float64)
+					if err != nil || !info.MACOK {
+						mintWatch <- viol("c02/minted-not-verifiable", "a minted token does not verify under the configured key: %v", err)
+						return
+					}
+					if d := exp - float64(before.Unix()); d > 301 {
+						mintWatch <- viol("c02/minted-lifetime", "a token minted at %s expires %.0f s later, more than five minutes", before.Format("15:04:05.000"), d)
+						return
+					}
+				}
+				mintWatch <- nil
+			}()
 			conn.Send(tsgu.Handshake(1, 0, 0, 2))
 			time.Sleep(time.Duration(c.IdleS) * time.Second)
 			if v := <-slow; v != nil {
@@ -619,7 +648,7 @@ func TestC02_IDLE(t *testing.T) {
 			if rs[1].Status == 0 {
 				return viol("c02/accepted/expired-on-idle-connection", "a cookie that is %d s past its expiry when presented (connection opened %d s earlier, when it was still inside the leeway) was accepted", -c.ExpAtConnect+c.IdleS, c.IdleS)
 			}
-			return nil
+			return <-mintWatch
 		})
 	})
 }
